@@ -18,10 +18,9 @@ size_t nondet_size(void);
 #define CAP (2 * C16_NMAX + 2)
 
 #define MKCOV(c, arr, maxlen)                                                    \
-  cov_range arr[CAP]; coverage c;                                                \
+  cov_range arr[CAP]; /* uninitialised locals are nondet */ coverage c;                                                \
   V(&c).data = arr; V(&c).cap = CAP; V(&c).len = nondet_size();                  \
   __CPROVER_assume(V(&c).len <= (maxlen));                                       \
-  for (int i_ = 0; i_ < CAP; i_++) { arr[i_].start = nondet_u64(); arr[i_].length = nondet_u64(); } \
   __CPROVER_assume(cov_wf(&c));
 
 #define ARGS                                                                     \
